@@ -1,4 +1,4 @@
-import MptModel.Impl.Ring
+import MptModel.Impl.RingOps
 import MptModel.Spec.Deque
 import Driver.Util
 namespace Driver.Queue
@@ -29,28 +29,53 @@ def resName {α} : Res α → String
 def okR (out : List Byte := []) : String := s!"ok out={toHex out}"
 def refR : String := "refused out=-"
 
-/-- S: outcomes of `op` on deque `d` with capacity `cap` that the property allows.
-    A zero-length request may be refused or accepted (the content is the same either way). -/
-def altsGrow (d : Deque.Deque) (cap n : Nat) (new : Deque.Deque) : List Alt :=
-  if n = 0 then [(okR, d), (refR, d)]
-  else if d.length + n ≤ cap then [(okR, new)] else [(refR, d)]
+/-- text of an observable outcome: (verdict, returned bytes) -/
+def outText : Deque.XOut → String × List Byte
+  | .ok b => ("ok", b)
+  | .okN n b => (s!"ok n={n}", b)
+  | .found p => (s!"found@{p}", [])
+  | .notFound => ("none", [])
+  | .refused => ("refused", [])
+  | .bad => ("BAD", [])
 
-def altsTake (d : Deque.Deque) (n : Nat) (dst : Bool) (res : Option (Deque.Deque × List Byte)) : List Alt :=
-  match res with
-  | some (rest, out) =>
-    -- without a destination the bytes are only reachable through a pointer into contiguous storage:
-    -- refusal is the documented answer when they are not contiguous
-    (okR out, rest) :: (if dst ∧ n ≠ 0 then [] else [(refR, d)])
-  | none => [(refR, d)]
+def altText (o : Deque.XOut) : String := let (v, b) := outText o; s!"{v} out={toHex b}"
 
-def altsAt (d : Deque.Deque) (n : Nat) (res : Option Deque.Deque) (out : List Byte := []) : List Alt :=
-  match res with
-  | some new => (okR out, new) :: (if n = 0 then [(refR, d)] else [])
-  | none => (refR, d) :: (if n = 0 then [(okR, d)] else [])
+/-- one `q` op line as a spec/model operation -/
+def parseOp (w : List String) : Option Deque.XOp :=
+  match w with
+  | ["q", "push", dat] => (parseData dat).map fun (b, n) => .push n b
+  | ["q", "unshift", dat] => (parseData dat).map fun (b, n) => .unshift n b
+  | ["q", "pop", n] => n.toNat?.map fun n => .pop n true
+  | ["q", "pop", n, "nodst"] => n.toNat?.map fun n => .pop n false
+  | ["q", "shift", n] => n.toNat?.map fun n => .shift n true
+  | ["q", "shift", n, "nodst"] => n.toNat?.map fun n => .shift n false
+  | ["q", "crop", p, n] => match p.toNat?, n.toNat? with
+    | some p, some n => some (.crop p n) | _, _ => none
+  | ["q", "get", p, n] => match p.toNat?, n.toNat? with
+    | some p, some n => some (.get p n true) | _, _ => none
+  | ["q", "get", p, n, "nodst"] => match p.toNat?, n.toNat? with
+    | some p, some n => some (.get p n false) | _, _ => none
+  | ["q", "set", p, dat] => match p.toNat?, parseData dat with
+    | some p, some (b, n) => some (.set p n b) | _, _ => none
+  | ["q", "align", p] => p.toNat?.map .align
+  | ["q", "resize", n] => n.toNat?.map .resize
+  | ["q", "prepare", n] => n.toNat?.map .prepare
+  | ["q", "find", needle] => match parseHex needle with
+    | some nd => if nd.isEmpty then none else some (.find nd)
+    | none => none
+  | ["q", "string"] => some .string
+  | ["q", "load", len, dat] => match len.toNat?, parseHex dat with
+    | some l, some b => some (.load l b) | _, _ => none
+  | ["q", "save"] => some (.save Deque.sizeMax)
+  | ["q", "save", k] => k.toNat?.map .save
+  | ["q", "mget", o, t] => match o.toNat?, t.toNat? with
+    | some o, some t => some (.mget o t true) | _, _ => none
+  | ["q", "mget", o, t, "novec"] => match o.toNat?, t.toNat? with
+    | some o, some t => some (.mget o t false) | _, _ => none
+  | _ => none
 
 def step (s : St) (w : List String) : St × String :=
   let d := s.d
-  let cap := s.r.max
   match w with
   | ["q", "new", mx, off, fill] =>
     match mx.toNat?, off.toNat?, parseHex fill with
@@ -60,130 +85,19 @@ def step (s : St) (w : List String) : St × String :=
         ({ r := r, d := f }, line "ok" [] r "0" [(okR, f)])
       else (s, "bad-op")
     | _, _, _ => (s, "bad-op")
-  | ["q", "push", dat] =>
-    match parseData dat with
-    | some (b, n) =>
-      let bytes := (b.getD (List.replicate n 0))
-      let alts := altsGrow d cap n (Deque.push d bytes)
-      match s.r.qpush n b with
-      | .ok (r', ret) => ({ r := r', d := Deque.push d bytes }, line "ok" [] r' (toString ret) alts)
-      | x => (s, line "refused" [] s.r (resName x) alts)
+  | "q" :: _ =>
+    match parseOp w with
     | none => (s, "bad-op")
-  | ["q", "unshift", dat] =>
-    match parseData dat with
-    | some (b, n) =>
-      let bytes := (b.getD (List.replicate n 0))
-      let alts := altsGrow d cap n (Deque.unshift d bytes)
-      match s.r.qunshift n b with
-      | .ok (r', ret) => ({ r := r', d := Deque.unshift d bytes }, line "ok" [] r' (toString ret) alts)
-      | x => (s, line "refused" [] s.r (resName x) alts)
-    | none => (s, "bad-op")
-  | "q" :: "pop" :: n :: rest =>
-    match n.toNat? with
-    | some n =>
-      let dst := rest ≠ ["nodst"]
-      let sp := Deque.pop d n
-      let alts := altsTake d n dst sp
-      match s.r.qpop n dst with
-      | .ok (r', out) => ({ r := r', d := (sp.map (·.1)).getD d }, line "ok" out r' "ptr" alts)
-      | x => (s, line "refused" [] s.r (resName x) alts)
-    | none => (s, "bad-op")
-  | "q" :: "shift" :: n :: rest =>
-    match n.toNat? with
-    | some n =>
-      let dst := rest ≠ ["nodst"]
-      let sp := Deque.shift d n
-      let alts := altsTake d n dst sp
-      match s.r.qshift n dst with
-      | .ok (r', out) => ({ r := r', d := (sp.map (·.1)).getD d }, line "ok" out r' "ptr" alts)
-      | x => (s, line "refused" [] s.r (resName x) alts)
-    | none => (s, "bad-op")
-  | ["q", "crop", p, n] =>
-    match p.toNat?, n.toNat? with
-    | some p, some n =>
-      let sp := Deque.crop d p n
-      let alts := altsAt d n sp
-      match s.r.crop p n with
-      | .ok (r', ret) => ({ r := r', d := sp.getD d }, line "ok" [] r' (toString ret) alts)
-      | x => (s, line "refused" [] s.r (resName x) alts)
-    | _, _ => (s, "bad-op")
-  | "q" :: "get" :: p :: n :: rest =>
-    match p.toNat?, n.toNat? with
-    | some p, some n =>
-      let dst := rest ≠ ["nodst"]
-      let sp := Deque.get d p n
-      let alts := altsAt d n (sp.map fun _ => d) (if dst then sp.getD [] else [])
-      match s.r.get p n dst with
-      | .ok (ret, out) => (s, line "ok" out s.r (toString ret) alts)
-      | x => (s, line "refused" [] s.r (resName x) alts)
-    | _, _ => (s, "bad-op")
-  | ["q", "set", p, dat] =>
-    match p.toNat?, parseData dat with
-    | some p, some (b, n) =>
-      let bytes := (b.getD (List.replicate n 0))
-      let sp := Deque.set d p bytes
-      let alts := altsAt d n sp
-      match s.r.set p n b with
-      | .ok (r', ret) => ({ r := r', d := sp.getD d }, line "ok" [] r' (toString ret) alts)
-      | x => (s, line "refused" [] s.r (resName x) alts)
-    | _, _ => (s, "bad-op")
-  | ["q", "align", p] =>
-    match p.toNat? with
-    | some p =>
-      match s.r.align p with
-      | .ok r' => ({ s with r := r' }, line "ok" [] r' "0" [(okR, d)])
-      | x => (s, line "refused" [] s.r (resName x) [(okR, d)])
-    | none => (s, "bad-op")
-  | ["q", "resize", n] =>
-    match n.toNat? with
-    | some n =>
-      -- shrinking below the content length removes data from the queue start (documented in queue_resize.c)
-      let sd := if n < d.length then d.drop (d.length - n) else d
-      match s.r.resize n with
-      | .ok r' => ({ r := r', d := sd }, line "ok" [] r' "ptr" [(okR, sd)])
-      | x => (s, line "refused" [] s.r (resName x) [(okR, sd)])
-    | none => (s, "bad-op")
-  | ["q", "prepare", n] =>
-    match n.toNat? with
-    | some n =>
-      match s.r.prepare n with
-      | .ok (r', left) => ({ s with r := r' }, line "ok" [] r' (toString left) [(okR, d)])
-      | x => (s, line "refused" [] s.r (resName x) [(okR, d)])
-    | none => (s, "bad-op")
-  | ["q", "find", needle] =>
-    match parseHex needle with
-    | some nd =>
-      let sv := match Deque.findAt d nd (d.length + 1) 0 with
-        | some i => s!"found@{i * nd.length} out=-" | none => "none out=-"
-      -- an element that straddles the storage wrap is refused (ENOTSUP), fewer bytes than one element too
-      let alts : List Alt := [(sv, d), (refR, d)]
-      match s.r.find nd with
-      | .ok (some a) =>
-        let lp := if a ≥ s.r.off then a - s.r.off else a + s.r.max - s.r.off
-        (s, line s!"found@{lp}" [] s.r (toString a) alts)
-      | .ok none => (s, line "none" [] s.r "null" alts)
-      | x => (s, line "refused" [] s.r (resName x) alts)
-    | none => (s, "bad-op")
-  | ["q", "string"] =>
-    let alts : List Alt := if d.length < cap then [(okR d, d)] else [(refR, d)]
-    match s.r.string with
-    | .ok (r', out) => ({ s with r := r' }, line "ok" out r' "ptr" alts)
-    | x => (s, line "refused" [] s.r (resName x) alts)
-  | ["q", "load", len, dat] =>
-    match len.toNat?, parseHex dat with
-    | some l, some b =>
-      let free := cap - d.length
-      let k := Nat.min b.length (if l = 0 ∨ l ≥ free then free else l)
-      let alts : List Alt := if free = 0 then [(refR, d)] else [(s!"ok n={k} out=-", d ++ b.take k)]
-      match s.r.load l b with
-      | .ok (r', n) => ({ r := r', d := d ++ b.take n }, line s!"ok n={n}" [] r' (toString n) alts)
-      | x => (s, line "refused" [] s.r (resName x) alts)
-    | _, _ => (s, "bad-op")
-  | ["q", "save"] =>
-    let alts : List Alt := [(s!"ok n={d.length} out={toHex d}", [])]
-    match s.r.save with
-    | .ok (r', out) => ({ r := r', d := d.drop out.length }, line s!"ok n={out.length}" out r' (toString out.length) alts)
-    | x => (s, line "refused" [] s.r (resName x) alts)
+    | some op =>
+      -- S: what the property allows for this op on the spec deque (capacity and the "stored in two pieces"
+      -- bit are representation state taken from the model ring); M: `Ring.stepX`, the subject of C13.stepX_sound
+      let alts := Deque.allowed s.r.max s.r.frag d op
+      let (r', out, ret) := s.r.stepX op
+      let (v, b) := outText out
+      -- the spec deque follows the alternative the model took (none: keep, the line is an m_ne_s)
+      let d' := match alts.find? (fun a => a.1 == out) with
+        | some (_, c) => c | none => d
+      ({ r := r', d := d' }, line v b r' ret (alts.map fun (o, c) => (altText o, c)))
   -- C++ pipe<uint16_t> (mpt++/io.h) on top of io::queue: elements are two bytes, little endian on the wire of this driver
   | ["xq", "elements"] =>
     let alts : List Alt := [(okR (d.take (d.length / 2 * 2)), d)]
@@ -245,7 +159,8 @@ def step (s : St) (w : List String) : St × String :=
       | x => (s, line "refused" [] s.r (resName x) alts)
     | none => (s, "bad-op")
   | ["xq", "write", part, dat] =>
-    match part.toNat?, parseHex dat with
+    -- `zero:N` = null data pointer: N zero bytes are appended (mpt_qpush zero-fills); the model sees the zeros as data
+    match part.toNat?, (parseData dat).map (fun (b, n) => b.getD (List.replicate n 0)) with
     | some p, some b =>
       if p = 0 ∨ b.length % p ≠ 0 then (s, "bad-op") else
       let elems := (List.range (b.length / p)).map fun i => (b.drop (i * p)).take p
@@ -253,6 +168,18 @@ def step (s : St) (w : List String) : St × String :=
       let alts : List Alt := [(s!"ok n={elems.length} out=-", d ++ b)]
       match s.r.xwrite p elems with
       | .ok (r', k) => ({ r := r', d := d ++ b.take (k * p) }, line s!"ok n={k}" [] r' (toString k) alts)
+      | x => (s, line "refused" [] s.r (resName x) alts)
+    | _, _ => (s, "bad-op")
+  | ["xq", "read", len, part, "nodst"] =>
+    match len.toNat?, part.toNat? with
+    | some l, some p =>
+      if p = 0 ∨ l > 4096 ∨ p > 4096 then (s, "bad-op") else
+      -- spec: some number k <= min(len, stored/part) of whole elements is removed from the end (without a target
+      -- the loop may stop at an element stored in two pieces)
+      let kmax := Nat.min l (d.length / p)
+      let alts : List Alt := (List.range (kmax + 1)).map fun k => (s!"ok n={k} out=-", d.take (d.length - k * p))
+      match s.r.xreadNull p l with
+      | .ok (r', k) => ({ r := r', d := d.take (d.length - k * p) }, line s!"ok n={k}" [] r' (toString k) alts)
       | x => (s, line "refused" [] s.r (resName x) alts)
     | _, _ => (s, "bad-op")
   | ["xq", "read", len, part] =>
